@@ -430,3 +430,51 @@ PROPS["C10"] = _sys("C10", [],
     "the prune step, inventory merge/replace/delete, lifted by induction over object lists and task lists; the plan of a dry-run has no wait task. "
     "Tie: whole runs in both dry-run modes x client/server-side apply on states produced by earlier real runs (sys-C10).",
     "Spec predicate: no executed mutation in the request log (client: none at all; server: only dry-run patches, no delete), store snapshot before = after.")
+
+PROPS["C01"] = _sys("C01", [],
+    "Theorems (per-step facts of the no-orphan argument, for all states and inputs): a successful merge stores a superset of the previously "
+    "stored ids and of the apply set before any apply request (merge_superset); apply and prune steps never touch the stored inventory "
+    "(applyOne_keeps_inv, pruneOne_keeps_inv); the final replace keeps every successfully applied object and every tracked object in a "
+    "retention class or invalid, and drops only abandoned objects and objects in no retention class (keeps_*, dropped_only_if, via the "
+    "inventory formula of C03); the inventory object is deleted only when nothing is left to retain (C03.destroy_successful_nothing_retained); "
+    "an aborted run never reaches the final replace (abort_stops). The end-to-end invariant — no live annotated object outside the stored "
+    "inventory at ANY prefix of the mutating-request trace, including after a rejected request — is evaluated on every store snapshot of every "
+    "generated history of the real implementation (and of the model), with every request index injected as failure point by the generator.",
+    "Spec predicate noOrphans on every snapshot: every object carrying this inventory's annotation is listed in the stored inventory (the inventory "
+    "namespace is exempt until the stored inventory has listed it once).",
+    ["the composition of the per-step theorems into one prefix-invariant theorem over runOne is not machine-checked (stated in Props/C01.lean)"])
+PROPS["C03"] = _sys("C03", [],
+    "Theorems: the inventory formula as an exact membership characterisation of the final inventory (successful applies + tracked objects whose "
+    "apply/delete failed or was skipped or whose reconcile failed/timed out, minus abandoned, + tracked invalid), no repeats, nothing foreign; "
+    "a successful destroy leaves nothing to retain; fixpoint components: kubectl's client-side apply of an unchanged object sends no request, the "
+    "merge and the final replace write nothing when the set is unchanged. Model equivalence itself is the trace correspondence: the Lean run model "
+    "stepped with the same histories produces the same stored inventory and store as the implementation after every run.",
+    "Spec predicate: after every run without error event: applied objects live+annotated, completed deletes gone, stored inventory = formula from "
+    "the observed events; an identical clean re-apply sends no effective create/delete and leaves the inventory unchanged; destroy leaves nothing managed.",
+    ["a create answered AlreadyExists (the idempotent creation of the inventory namespace) is not counted as a create request of a fixpoint run"])
+PROPS["C11"] = _sys("C11", [],
+    "Theorems: every invalid id is named in a validation error (invalid_named); no task of any plan — inventory-add, apply, prune, wait — names "
+    "an invalid id, so none is ever sent or merged into the inventory (plan_excludes_invalid, merged_ids_valid); under exit-early a run with "
+    "validation errors makes no mutating request and emits only the error event (exit_early_no_mutation, for every cluster and run); objects "
+    "depending on an invalid object are not applied (dependent_of_invalid_not_applied); tracked invalid objects stay in the inventory (C01.keeps_invalid).",
+    "Spec predicate: invalid objects (9 generated families) never appear in the request log, are named in validation events, are not added to any "
+    "inventory snapshot, stay if tracked; exit-early runs have an empty request log and an error event; dependents are not applied.")
+PROPS["C12"] = _sys("C12", ["wait"],
+    "Theorems: when the deadline fires Timeout is reported for exactly the pending objects (C06); after an abort (cancellation, watcher failure, "
+    "task error) the running task is finished and exactly one error event ends the run, no later task starts (cancel_no_new_phase); at most one "
+    "error event, only last (single_error_last); cancelling emits nothing and apply/prune steps leave the stored inventory as merged "
+    "(cancel_keeps_inventory). Real time (a deadline never fires early, termination within bounded time) is a runtime fact: the harness configures "
+    "a short real timeout and compares only presence/absence and order of Timeout events.",
+    "Spec predicate: Timeout only with a timeout configured and only for objects whose last wait event was Pending; nothing after the error event; "
+    "no request after the channel closed (C13) and no orphan after cancellation (C01).",
+    ["Go's context.WithTimeout / timers are trusted not to fire early"])
+PROPS["C13"] = _sys("C13", ["print"],
+    "Theorems: apply and prune steps emit exactly one non-pending result event per object naming their group (applyOne_one_event, "
+    "pruneOne_one_event); a wait phase emits exactly one wait event per object at its start; every step emits only item events "
+    "(runTask_onlyItems, incl. the whole wait-phase machinery); the runner brackets every task with started/finished and emits at most one "
+    "error event, only as the last event (runTasks_error_last). The run model is a total function: every run terminates with a complete stream. "
+    "The full event grammar (Spec.eventsWellFormed, shared with C20 where properties of well-formed streams are proved) is evaluated on every "
+    "stream of the real implementation; channel closure, hangs (20 s watchdog) and requests after close are observed by the harness.",
+    "Spec predicate: stream accepted by the grammar for its own plan event, channel closed, no request after close, no hang / panic.",
+    ["closure of the Go channel and absence of late goroutines are observed, not proved",
+     "acceptance of the grammar by ALL model runs is not proved as one theorem"])
